@@ -55,7 +55,7 @@ func genC21Contended() *rapid.Generator[c21ContCase] {
 			c.Queries = append(c.Queries, q)
 		}
 		if chance(t, "fault", 40) {
-			c.Fault = &CursorFault{Kind: pick(t, "fkind", []string{"Read", "Read", "OpenFile", "Seek"}), N: rapid.IntRange(0, 12).Draw(t, "fn")}
+			c.Fault = &CursorFault{Kind: pick(t, "fkind", []string{"Read", "Read", "OpenFile", "Seek", "RClose"}), N: rapid.IntRange(0, 12).Draw(t, "fn")}
 		}
 		if chance(t, "samefile", 35) {
 			// many blocks of ONE file scanned by several workers: handles of that
@@ -65,7 +65,12 @@ func genC21Contended() *rapid.Generator[c21ContCase] {
 			c.QConc = pick(t, "sfqconc", []int{3, 4, 8})
 			c.LatencyUs = pick(t, "sflat", []int{200, 1000})
 			c.CloseLatencyUs = pick(t, "sfclat", []int{3000, 1000})
-			c.Fault = &CursorFault{Kind: "Read", N: rapid.IntRange(3, 20).Draw(t, "sffn")}
+			c.Fault = &CursorFault{Kind: pick(t, "sffk", []string{"Read", "Read", "RClose"}), N: rapid.IntRange(3, 20).Draw(t, "sffn")}
+			if c.Fault.Kind == "RClose" {
+				// a handle whose Close reports an error (it is closed all the same):
+				// the first handles the pool closes, while their siblings are idle
+				c.Fault.N = unif(t, "sfcn", 3)
+			}
 			c.Queries = c.Queries[:1]
 			c.Queries[0] = c21Query{Kind: pick(t, "sfkind", []string{"all", "token"}), End: "drain"}
 			if chance(t, "sfsecond", 40) {
